@@ -63,7 +63,7 @@
 //! | quantifier: nested arrays, names containing L, $, unicode, one character | generators | desc atoms; names alphabet (floors on JDK-looking, 3/4-byte, long names, 255 dimensions) |
 //! | quantifier: diamonds, missing intermediate classes, depth | generators | inherit (diamonds, unknown/absent classes), shapes (depth, width, absent fillers) |
 //! | a member is the pair (name, descriptor): two members that coincide under any coarser key are answered apart, a member the mappings do not name keeps its name | `member::judge_member` (the reference compares name and descriptor as a pair) | confuse: all pairs of ~90 confusable members, 4 placements, 2 insertion orders, namespaces swapped; 16² class-name pairs |
-//! | answers do not depend on what the remapper was asked before | every answer of a query list asked in order and in reverse order (fresh remapper) is judged | confuse (all lists), inherit (one remapper serves all graphs of a configuration) |
+//! | answers do not depend on what the remapper was asked before | every answer of a query list asked in order and in reverse order (fresh remapper) is judged; a wrong answer that a fresh remapper gets right is reported as `member:answer-depends-on-earlier-queries` with the sequence as replay | confuse (all lists), inherit (one remapper serves all graphs of a configuration) |
 //! | the super types are those the provider knows, wherever it keeps them | `World::accepted` on the graph, whatever the distribution over jars; with a failing provider `Err` or an answer right for the graph with or without the failing class; never a panic | env: 941 graphs × (2⁴ + 3⁴) distributions × 10 sets; 941 graphs × 4 failing classes; `JarSuperProv::remap` (`provider-remap:*`) on 941 graphs × 9 row configurations × 1/2 jars |
 //! | quantifier: all descriptors of the grammar — long ones, multi-byte characters at every offset, also where the scanner refuses | `desc::judge_desc_tally` (`Err` or same shape outside the grammar, never a panic) | long: k ≤ 140 × 1/2/3/4-byte character × 6 accepting and 8 refusing forms; ≤ 255 parameter slots and ≤ 65535 bytes demanded, beyond that `Err` or a right answer |
 
